@@ -135,6 +135,43 @@ func runC03(c *Ctx) {
 		c03Wire(c, "limits", wireOf(ls), r.Bytes(r.Intn(3)))
 		c03Text(c, "limits", spell(ls, r, r.Intn(2)))
 	}
+	// 2b. the longest presentation forms: names at and around 255 wire octets with every octet written as \DDD (four
+	//     characters each: 1004 characters for 63.63.63.61), every octet but one, and with a fifth label
+	for _, last := range []int{58, 59, 60, 61, 62, 63} {
+		for _, shape := range [][]int{{63, 63, 63, last}, {63, 63, 62, last, 1}, {1, 63, 63, 63, last - 2}} {
+			for _, fill := range []byte{'a', '7', 0, 200, '.'} {
+				var ls [][]byte
+				okShape := true
+				for _, n := range shape {
+					if n < 1 {
+						okShape = false
+						break
+					}
+					ls = append(ls, bytesOf(fill, n))
+				}
+				if !okShape {
+					continue
+				}
+				for _, plainAt := range []int{-1, 0, 100} {
+					var sb strings.Builder
+					k := 0
+					for _, l := range ls {
+						for _, b := range l {
+							if k == plainAt && b == 'a' {
+								sb.WriteByte(b)
+							} else {
+								fmt.Fprintf(&sb, "\\%03d", b)
+							}
+							k++
+						}
+						sb.WriteByte('.')
+					}
+					c03Text(c, "longest-text", sb.String())
+				}
+				c03Wire(c, "longest-text", wireOf(ls), nil)
+			}
+		}
+	}
 	// 3. random names, random spellings, mutations
 	n = c.Scale(20000, 400000)
 	for i := 0; i < n; i++ {
@@ -284,4 +321,13 @@ func c03DDDOverflow(c *Ctx, r *Rng) {
 		}
 		c03Text(c, "ddd-overflow", sb.String())
 	}
+}
+
+
+func bytesOf(b byte, n int) []byte {
+	out := make([]byte, n)
+	for i := range out {
+		out[i] = b
+	}
+	return out
 }
